@@ -93,11 +93,27 @@ func c27Tree(k int) *syntax.Regexp {
 		return un(syntax.OpStar, 0, &syntax.Regexp{Op: syntax.OpConcat, Sub: []*syntax.Regexp{c27Lit("r1"), c27Lit("r2")}})
 	case 17:
 		return &syntax.Regexp{Op: syntax.OpConcat, Sub: []*syntax.Regexp{c27Lit("r1"), &syntax.Regexp{Op: syntax.OpAlternate, Sub: []*syntax.Regexp{un(syntax.OpStar, 0, c27Lit("r2")), {Op: syntax.OpEmptyMatch}}}}}
+	case 18:
+		// a quantifier applied to another repetition needs grouping: (?:a{1,})?
+		inner := un(syntax.OpRepeat, 0, c27Lit("r"))
+		inner.Min, inner.Max = 1, -1
+		return un(syntax.OpQuest, 0, inner)
+	case 19:
+		// (?:a+?)* : different greediness inside
+		return un(syntax.OpStar, 0, un(syntax.OpPlus, syntax.NonGreedy, c27Lit("r")))
+	case 20:
+		inner := un(syntax.OpRepeat, 0, c27Lit("r"))
+		inner.Min, inner.Max = 2, 2
+		outer := un(syntax.OpRepeat, 0, inner)
+		outer.Min, outer.Max = 0, 1
+		return outer
+	case 21:
+		return un(syntax.OpPlus, 0, un(syntax.OpQuest, syntax.NonGreedy, c27Lit("r")))
 	}
 	return &syntax.Regexp{Op: syntax.OpNoMatch}
 }
 
-const c27Trees = 19
+const c27Trees = 23
 
 func H_C27_print() {
 	re := c27Tree(verifrt.Concretize(verifrt.IntRange("tree", 0, c27Trees-1)))
